@@ -159,7 +159,9 @@ def run(spec, cfgname, post_depth=0):
         # scale the altered multipliers suggest
         try:
             primal_now = float(pep.objective.eval())
-            if not cfg["dr"] and abs(dual_value - primal_now) > 50 * tol * max(1.0, abs(primal_now)):
+            # (measured on the unchanged tree, accurate solver, status `optimal`: the gap never exceeds 8e-8 over the whole grammar)
+            gaptol = 2.5 * tol if tol <= 2e-6 else 50 * tol
+            if not cfg["dr"] and abs(dual_value - primal_now) > gaptol * max(1.0, abs(primal_now)):
                 res["c01"].append(("cert:constant-far-from-optimum:%s" % be, "the identity's constant %.8g is not the optimal value %.8g"
                                    % (dual_value, primal_now)))
         except Exception:
